@@ -52,3 +52,14 @@ def g2p_shift(x, shift=None):
 
 def tree_size(trees):
     return np.array([-abs(len(t) - 7.0) for t in trees], dtype=np.float64)
+
+
+def g2p_rowsum(x):
+    """one number per individual: a 1-D phenotype population"""
+    return np.sum(np.asarray(x, dtype=np.float64), axis=1)
+
+
+def scalar_value_delayed(ph):
+    _delay(ph)
+    a = np.asarray(ph, dtype=np.float64)
+    return -(a - 3.0) ** 2
